@@ -28,6 +28,11 @@ def build(kind, form=0):
     if kind["cls"] == "cont":
         return EVSE("E-1", max_rate=num(kind["max"]), min_rate=num(kind["min"]))
     if kind["cls"] == "deadband":
+        if form % 3 == 2:
+            # the deprecated keyword min_rate is accepted (DeprecationWarning) and has no meaning for this class: the
+            # station is the same station - it accepts, and advertises, {0} u [deadband_end, max_rate]
+            return DeadbandEVSE("E-1", deadband_end=num(kind["end"]), max_rate=num(kind["max"]),
+                                min_rate=(kind["end"] + (20000 if form % 2 else -30000)) / U)
         return DeadbandEVSE("E-1", deadband_end=num(kind["end"]), max_rate=num(kind["max"]))
     lv = [num(l) for l in kind["levels"]]
     form = form % 6
